@@ -247,8 +247,12 @@ def c03f(prog, R, rid="C03.f"):
         r.check(ok, "%s|bounds applied before the reader's first item" % name, "the reader is read before both bounds were applied", "")
         il = hir_sites(h["body"], lambda n: n.get("k") == "mcall" and n.get("m") == "seek_lower" and "index_iter" in hir_expr_str(n["r"]))
         iu = hir_sites(h["body"], lambda n: n.get("k") == "mcall" and n.get("m") == "seek_upper" and "index_iter" in hir_expr_str(n["r"]))
-        ok = len(il) == 1 and len(iu) == 1 and any("&self.range.0" in g for g in il[0].guard_texts()) and any("&self.range.1" in g for g in iu[0].guard_texts()) \
-            and all("!self.index_initialized" in s.guard_texts() for s in il + iu)
+        def _only(site, fld):
+            # exactly: not yet initialised, (the lower seek succeeded,) and this bound exists - no further condition
+            gs = site.guard_texts()
+            rest = [g for g in gs if g not in ("!self.index_initialized", "ok")]
+            return "!self.index_initialized" in gs and len(rest) == 1 and rest[0].startswith("let ") and rest[0].endswith("= &self.range.%s" % fld)
+        ok = len(il) == 1 and len(iu) == 1 and _only(il[0], "0") and _only(iu[0], "1")
         r.check(ok, "%s|lazily initialised index iterator gets seek_lower / seek_upper" % name,
                 "the index iterator is not clamped by both bounds when initialised from this direction", "")
     # RunReader
